@@ -70,6 +70,8 @@ def jobs(tier):
         J.append(_cfg('const-N1', 1, 2, 4, 'const', 'none', tier))
         J.append(_cfg('const-N2', 2, 2, 4, 'const', 'none', tier))
         J.append(_cfg('const-N3', 3, 1, 3, 'const', 'none', tier))
+        J.append(_cfg('const-N3-B5', 3, 1, 5, 'const', 'none', tier, IV=9,
+                      K=11))
         J.append(_cfg('adaptive-N1', 1, 2, 4, 'adaptive', 'none', tier))
         J.append(_cfg('adaptive-N2', 2, 1, 3, 'adaptive', 'none', tier))
         J.append(_cfg('condconst-N2', 2, 2, 3, 'const', 'const', tier))
